@@ -38,7 +38,7 @@ int main(void){
   R a[N], a2[N], as[N], b[N], c[N], c2[N], c3[N];
   in_lam=nondet_R();
   for(int i=0;i<N;i++){
-#if MODE==1
+#if MODE==1 && defined(IA)
     a[i]=(i==IA)?1.0:0.0;
 #else
     a[i]=nondet_R();
